@@ -369,6 +369,9 @@ func TestCheck(t *testing.T) {
 		if i%3 == 2 {
 			w = reflabel.FarPointer(rng)
 		}
+		if i%5 == 4 {
+			w = reflabel.ManyPointers(rng)
+		}
 		var code int
 		var v []byte
 		switch rng.IntN(3) {
